@@ -188,7 +188,10 @@ def xrefClass (db : DB) (c : Class) : DB := c.methods.foldl (xrefMethod c.name) 
 
 def xrefDex (db : DB) (d : Dex) : DB := d.classes.foldl xrefClass db
 
-/-- `for vm in vms: dx.add(vm)` then `dx.create_xref()` -/
+/-- `for vm in vms: dx.add(vm)` then `dx.create_xref()`.  The program is given with the names as they read when
+`create_xref` runs: `create_xref` re-keys `__method_hashes` from the current names
+(fixes/C13-method-hashes-current-names.diff) and looks fields up lazily, so renames made between `add` and
+`create_xref` are the same as renames made before `add`. -/
 def analyse (p : List Dex) : DB := p.foldl xrefDex (p.foldl addDex {})
 
 /-! ### `Analysis.get_call_graph` (default filters): the edge list -/
